@@ -7,6 +7,7 @@ mod hubctl;
 mod hubsched;
 mod hubwire;
 mod hubsync;
+mod c20;
 
 fn main() {
     let mut it = std::env::args().skip(1);
@@ -22,6 +23,7 @@ fn main() {
         "c12" => hubwire::main_c12(args),
         "c11" => hubwire::main_c11(args),
         "c13" => hubsync::main(args),
+        "c20" => c20::main(args),
         _ => {
             eprintln!("unknown command {cmd}");
             2
